@@ -17,7 +17,7 @@
    their conclusions: the results are functions of the data alone. *)
 From Coq Require Import List NArith Arith Lia.
 From NV Require Import Io.Source Io.ReadExact Io.ReadExactProofs Io.BufReader Io.BufReaderProofs
-  Io.Prog Io.ProgProofs Io.IndexProg Io.IndexProgProofs Io.ProgCram Io.ProgRun Io.ProgRunProofs Io.CsiProg Io.CsiProgProofs Io.HeaderAdapter Io.HeaderAdapterProofs
+  Io.Prog Io.ProgProofs Io.IndexProg Io.IndexProgProofs Io.ProgCram Io.ProgRun Io.ProgRunProofs Io.CsiProg Io.CsiProgProofs Io.HeaderAdapter Io.HeaderAdapterProofs Io.SeqRead Io.SeqReadProofs Io.SeqRun Io.SeqRunProofs
   Io.FastaScan Io.FastaScanProofs Io.FastaIndex Io.FastaIndexProofs Io.FastqRead Io.FastqReadProofs Io.HeaderRead Io.HeaderReadProofs Io.BgzfRead Io.BgzfReadProofs Io.BedRead Io.BedReadProofs Io.BedBridge Io.TabRead Io.TabReadProofs Io.Run Io.RunProofs.
 From NV Require Fasta.Layout Fasta.Indexer Fasta.WholeFile Fasta.Fastq Bgzf.Frame Bgzf.Reader Bgzf.ReaderOps
   Text.TextBase Text.BedRec Index.Layout Index.CsiLayout Index.TextIndex Trunc.Stream Trunc.Cram CramIdx.AsyncQuery Bgzf.Crc32.
@@ -355,6 +355,94 @@ Theorem c12_header_adapter_read_to_end_any_delivery :
     = COk (hdr_text (Datatypes.S (length data)) prefix true data).
 Proof. exact run_hdr_read_to_end_spec. Qed.
 Print Assumptions c12_header_adapter_read_to_end_any_delivery.
+
+(* ---- the FASTA sequence reader used as a plain Read (`impl Read for sequence::Reader`: fill_buf,
+   copy min(buf.len(), slice) bytes, consume THAT MANY -- a partial consume of the slice, of the
+   one-byte slice of a held-back CR, or of nothing).  One fill_buf followed by a consume of any
+   part k of the slice: the slice starts the sequence bytes still to come, the state afterwards
+   stands for the rest (line-start flag dropped, held-back CR released only when k = 1), the
+   work left does not grow, what follows the sequence ([seq_rest]) is unchanged, and after an empty
+   slice the BufReader stands exactly at it *)
+Theorem c12_fasta_sequence_fill_buf_partial_consume :
+  forall (S : Type) (rd : reader S) (Rep : S -> list N -> nat -> Prop), simulates rd Rep ->
+  forall cap, 1 <= cap ->
+  forall fuel ib p st d m,
+    rep_buf Rep st d m -> (p = true -> ib = false) -> mu m d p < fuel ->
+    exists piece ib1 p1 st1,
+      seq_fill_buf rd cap fuel ib p st = (SOk, piece, (ib1, p1, st1))
+      /\ (piece = [] -> spec ib p d = [])
+      /\ forall k, k <= length piece ->
+         exists ib2 p2 st2 d2 m2,
+           seq_consume k (ib1, p1, st1) = (ib2, p2, st2)
+           /\ rep_buf Rep st2 d2 m2 /\ (p2 = true -> ib2 = false)
+           /\ spec ib p d = firstn k piece ++ spec ib2 p2 d2
+           /\ mu m2 d2 p2 <= mu m d p
+           /\ seq_rest (lst ib) d = seq_rest (lst ib2) d2
+           /\ (piece = [] -> d2 = seq_rest (lst ib) d).
+Proof. exact (@fill_spec). Qed.
+Print Assumptions c12_fasta_sequence_fill_buf_partial_consume.
+
+(* over ANY simulating reader behind a BufReader of any capacity >= 1 the sequence reader's `read`
+   is itself a simulating reader of the sequence bytes of the data ([rep_seq]: the state stands for
+   [spec is_bol has_pending_cr d], d = what its BufReader stands for; the fuel of its own fill_buf
+   loop exceeds the work left).  Everything proved for simulating readers -- read_exact, every read
+   program, take(n).read_to_end and read_to_end with whatever buffer sizes -- therefore holds for
+   `sequence_reader()` used as a Read *)
+Theorem c12_fasta_sequence_read_simulates :
+  forall (S : Type) (rd : reader S) (Rep : S -> list N -> nat -> Prop), simulates rd Rep ->
+  forall cap, 1 <= cap -> forall fuel,
+    simulates (sq_read rd cap fuel) (rep_seq Rep fuel).
+Proof. exact (@sq_read_simulates). Qed.
+Print Assumptions c12_fasta_sequence_read_simulates.
+
+(* and it never reports Interrupted, however many the source delivers: fill_buf retries them *)
+Theorem c12_fasta_sequence_read_never_interrupted :
+  forall (S : Type) (rd : reader S) (Rep : S -> list N -> nat -> Prop), simulates rd Rep ->
+  forall cap, 1 <= cap -> forall fuel s dS m n, rep_seq Rep fuel s dS m ->
+    exists bs s', sq_read rd cap fuel s n = (ROk bs, s').
+Proof. exact (@sq_read_never_interrupted). Qed.
+Print Assumptions c12_fasta_sequence_read_never_interrupted.
+
+(* read_sequence = `sequence::Reader::new(inner).read_to_end(buf)`: over any simulating reader behind
+   a BufReader of any capacity >= 1, for EVERY sequence of sizes read_to_end's buffer growth asks
+   for ([req]), a fresh sequence reader returns exactly the sequence bytes of the data *)
+Theorem c12_fasta_read_sequence_read_to_end_chunk_indep :
+  forall (S : Type) (rd : reader S) (Rep : S -> list N -> nat -> Prop), simulates rd Rep ->
+  forall cap, 1 <= cap ->
+  forall fuel (req : nat -> nat) st d m, rep_buf Rep st d m -> m + 2 * length d < fuel ->
+    exists s', run_raw (sq_read rd cap fuel) req (fun _ n => n + 1)
+                 (Take (Datatypes.S (length d)) (fun bs => Ret bs)) (true, false, st)
+               = (RVal (seq_spec d), s').
+Proof. exact sq_read_to_end_spec. Qed.
+Print Assumptions c12_fasta_read_sequence_read_to_end_chunk_indep.
+
+(* ... and it leaves the inner BufReader standing for exactly [seq_rest BOL d]: the data from the
+   next definition line ('>' at a line start) on, or nothing -- blank lines and the terminator of
+   the last sequence line are consumed, nothing of the next record is *)
+Theorem c12_fasta_read_sequence_read_to_end_position :
+  forall (S : Type) (rd : reader S) (Rep : S -> list N -> nat -> Prop), simulates rd Rep ->
+  forall cap, 1 <= cap ->
+  forall fuel (req : nat -> nat) st d m, rep_buf Rep st d m -> m + 2 * length d < fuel ->
+    exists s' mi, run_raw (sq_read rd cap fuel) req (fun _ n => n + 1)
+                    (Take (Datatypes.S (length d)) (fun bs => Ret bs)) (true, false, st)
+                  = (RVal (seq_spec d), s')
+                  /\ rep_buf Rep (snd s') (seq_rest BOL d) mi.
+Proof. exact sq_read_to_end_pos_spec. Qed.
+Print Assumptions c12_fasta_read_sequence_read_to_end_position.
+
+(* on the scripted source: any script, any capacity >= 1, any request size *)
+Theorem c12_fasta_read_sequence_read_to_end_any_delivery :
+  forall data sc cap chunk, 1 <= cap ->
+    fst (run_seq_read_to_end cap chunk (mkSource data sc)) = COk (seq_spec data).
+Proof. exact run_seq_read_to_end_spec. Qed.
+Print Assumptions c12_fasta_read_sequence_read_to_end_any_delivery.
+
+(* the whole observation of kind seqe: bytes and number of source bytes not yet consumed *)
+Theorem c12_fasta_read_sequence_read_to_end_obs_any_delivery :
+  forall data sc cap chunk, 1 <= cap ->
+    run_seq_read_to_end cap chunk (mkSource data sc) = (COk (seq_spec data), length (seq_rest BOL data)).
+Proof. exact run_seq_read_to_end_pos_spec. Qed.
+Print Assumptions c12_fasta_read_sequence_read_to_end_obs_any_delivery.
 
 (* ---- bgzf::io::Reader over a chunked source.  read_frame_into (read_exact(18), BSIZE check,
    read_exact(rest)) over ANY simulating reader returns what C01's whole-buffer [Reader.read_frame]
@@ -747,6 +835,15 @@ Proof. vm_compute. repeat split. Qed.
 Example c12_example_fasta :
   snd (fst (run_read_sequence 1 (mkSource [65; 67; 13; 10; 71; 84; 13; 10; 62; 120]%N []))) = [65; 67; 71; 84]%N.
 Proof. vm_compute. reflexivity. Qed.
+
+(* the Read side: CR and LF in different windows, buffers of 1 byte, then a 0-byte and a 5-byte
+   buffer; read_sequence with 1-byte requests, capacity 1, Interrupted in the script *)
+Example c12_example_fasta_read :
+  fst (run_seq_reads 1 [1; 0; 5; 1; 1; 3; 3] (mkSource [65; 13; 71; 13; 10; 84; 13; 10; 62; 120]%N []))
+    = [ROk [65]; ROk []; ROk [13]; ROk [71]; ROk [84]; ROk []; ROk []]%N /\
+  fst (run_seq_read_to_end 1 1 (mkSource [65; 13; 71; 13; 10; 84; 13; 10; 62; 120]%N [Interrupted; Deliver 1; Interrupted]))
+    = COk [65; 13; 71; 84]%N.
+Proof. vm_compute. split; reflexivity. Qed.
 
 (* whole-file indexer: two CRLF records, capacity 1 with Interrupted, capacity 3, one window *)
 Example c12_example_index_file :
